@@ -1171,6 +1171,33 @@ func runArena(c *core.Ctx) {
 			once{}.violate(c, "reuse:"+f, "PEAlign gives different results with a reused and with a fresh arena", w)
 			return
 		}
+		// the same read OBJECT comes back to the reused arena with other content of the same length
+		// (reverse-complemented in place to try the other orientation, or refilled): nothing derived
+		// from its former content may be used
+		if k%3 == 0 && len(pr.A) >= 4 && r.o.Panic == "" {
+			sa, sb := mkseq("a", pr.A, pr.QA), mkseq("b", pr.B, pr.QB)
+			s.align(sa, sb, p)
+			var a2, q2 []byte
+			if k%2 == 0 {
+				sa.ReverseComplement(true)
+				a2, q2 = append([]byte{}, sa.Sequence()...), append([]byte{}, sa.Qualities()...)
+			} else {
+				a2 = gen.DNA(c.Rng, len(pr.A))
+				q2 = append([]byte{}, pr.QA...)
+				sa.SetSequence(append([]byte{}, a2...))
+				sa.SetQualities(append([]byte{}, q2...))
+			}
+			o2 := s.align(sa, sb, p)
+			f2 := newSession(len(a2), len(pr.B)).align(mkseq("a", a2, q2), mkseq("b", pr.B, pr.QB), p)
+			evals++
+			if f := sameOutcome(o2, f2); f != "" && !(o2.Panic != "" && f2.Panic != "") {
+				w := witness(gen.PEPair{A: a2, QA: q2, B: pr.B, QB: pr.QB}, p, o2)
+				w["fresh_arena_fresh_objects"] = witness(gen.PEPair{A: a2, QA: q2, B: pr.B, QB: pr.QB}, p, f2)
+				w["read_A_before_the_edit"] = string(pr.A)
+				once{}.violate(c, "reuse:object-edited-in-place:"+f, "PEAlign gives another result for a read object whose content was replaced (same length) than for a new object with that content", w)
+				return
+			}
+		}
 		if cl, _, _, _ := ref.PEPathCheck(fo.Path, len(pr.A), len(pr.B)); r.o.Panic != "" || r.class != "" || fo.Panic != "" || cl != "" {
 			return
 		}
